@@ -584,7 +584,7 @@ type c19Picker struct {
 	t       *rapid.T
 	addPath bool
 	pfx     []kit.Bits
-	usedBy  map[string]string         // prefix key -> list name
+	usedBy  map[string]string          // prefix key -> list name
 	usedID  map[string]map[uint32]bool // prefix key -> ids used
 	ids     []uint32                   // per-message permutation: distinct ids in draw order
 	next    int
